@@ -314,7 +314,7 @@ func layouts(r *core.Run, evals *int64) {
 					*evals++
 					n++
 					for _, f := range judgeDSLTree(p, in, false) {
-						r.Violate("layout:"+f.sig, fmt.Sprintf("prog %s input %x: %s", p, in, f.msg), TreeCase{Kind: "dsl", Prog: p.String(), Input: fmt.Sprintf("%x", in)})
+						r.Violate(layoutSig(f.sig), fmt.Sprintf("prog %s input %x: %s", p, in, f.msg), TreeCase{Kind: "dsl", Prog: p.String(), Input: fmt.Sprintf("%x", in)})
 					}
 					if a != b && b != c {
 						r.Nontrivial(p.String())
@@ -325,4 +325,12 @@ func layouts(r *core.Run, evals *int64) {
 	}
 	r.Count("layout_programs", int64(n))
 	r.Section("trees-layouts")
+}
+
+// layoutSig: the recorded ranges.Gaps finding keeps its signature in every section.
+func layoutSig(sig string) string {
+	if sig == "gaps:adjacency-plus-one-swallows-one-bit-hole" {
+		return sig
+	}
+	return "layout:" + sig
 }
